@@ -3,7 +3,11 @@ package config
 import (
 	"fmt"
 	"math"
+	"net"
+	"net/url"
 	"os"
+	"strconv"
+	"strings"
 	"time"
 
 	"gopkg.in/yaml.v3"
@@ -268,6 +272,38 @@ func (c *Config) validateBackends() error {
 		}
 		if backend.Weight < 0 {
 			return fmt.Errorf("backend %s: weight must be non-negative (got %d)", backend.Name, backend.Weight)
+		}
+		if err := validateBackendAddress(backend.Address); err != nil {
+			return fmt.Errorf("backend %s: %w", backend.Name, err)
+		}
+	}
+	return nil
+}
+
+// validateBackendAddress refuses addresses the proxy could never send a request to. An
+// address like "localhost:8081" parses as a URL (with scheme "localhost") and used to be
+// accepted: the proxy started and answered every request with 502
+func validateBackendAddress(address string) error {
+	u, err := url.Parse(address)
+	if err != nil {
+		return fmt.Errorf("address %q is not a URL: %v", address, err)
+	}
+	if u.Scheme != "http" && u.Scheme != "https" {
+		return fmt.Errorf("address %q must start with http:// or https://", address)
+	}
+	if u.Hostname() == "" {
+		return fmt.Errorf("address %q names no host", address)
+	}
+	if strings.HasPrefix(u.Host, "[") {
+		if net.ParseIP(u.Hostname()) == nil {
+			return fmt.Errorf("address %q: %q is not an IPv6 address", address, u.Hostname())
+		}
+	} else if strings.Contains(u.Hostname(), ":") {
+		return fmt.Errorf("address %q: %q is not a host name (an IPv6 address goes in brackets)", address, u.Hostname())
+	}
+	if p := u.Port(); p != "" {
+		if n, err := strconv.Atoi(p); err != nil || n < 1 || n > 65535 {
+			return fmt.Errorf("address %q: port must be between 1 and 65535", address)
 		}
 	}
 	return nil
